@@ -40,6 +40,14 @@ CPU_BUDGET = float(os.environ.get('C18_CALL_CPU', '45'))        # seconds of CPU
 MEM_LIMIT = int(os.environ.get('C18_MEM_MB', '3072')) << 20     # address space of the worker
 
 
+LOCALMAPS = [None]          # directory of the local map copy (job["localmaps"])
+
+
+def map_path_of(doc):
+    """the map_path parameter a document is processed with"""
+    return LOCALMAPS[0] if doc in c18_corpus.LOCALMAP else None
+
+
 class NoTermination(BaseException):
     """the CPU budget of a call is used up (raised from the SIGPROF handler; not an Exception: pyx12 cannot swallow it)"""
 
@@ -291,7 +299,7 @@ def call_validate(doc, session, reuse):
     try:
         with MapLoader(session, reuse):
             try:
-                r = pyx12.x12n_document.x12n_document(param, StringIO(c18_corpus.DOCS[doc]), fa, fh, fx)
+                r = pyx12.x12n_document.x12n_document(param, StringIO(c18_corpus.DOCS[doc]), fa, fh, fx, None, map_path_of(doc))
                 verdict = repr(r)
             except MemoryError:
                 raise
@@ -323,7 +331,7 @@ def _ids(nodes):
 def _iterate(doc, param, loop_id, lines, errs):
     n = 0
     try:
-        rd = pyx12.x12context.X12ContextReader(param, pyx12.error_handler.errh_null(), StringIO(c18_corpus.DOCS[doc]))
+        rd = pyx12.x12context.X12ContextReader(param, pyx12.error_handler.errh_null(), StringIO(c18_corpus.DOCS[doc]), map_path=map_path_of(doc))
         for node in rd.iter_segments(loop_id):
             n += 1
             if node.type == 'loop':
@@ -356,7 +364,7 @@ def _events(node, tag, lines):
 def _loop_pass(doc, param, loop_id, do_copy, lines, errs):
     n = 0
     try:
-        rd = pyx12.x12context.X12ContextReader(param, pyx12.error_handler.errh_null(), StringIO(c18_corpus.DOCS[doc]))
+        rd = pyx12.x12context.X12ContextReader(param, pyx12.error_handler.errh_null(), StringIO(c18_corpus.DOCS[doc]), map_path=map_path_of(doc))
         for node in rd.iter_segments(loop_id):
             n += 1
             lines.append('%s|%s|%s|%s|%s' % ('L' if node.type == 'loop' else 'S', node.id, node.cur_path, node.seg_count, node.cur_line_number))
@@ -424,6 +432,7 @@ def do_call(kind, doc, reuse, session, xmldir):
 def main():
     job = json.load(sys.stdin)
     full = job.get('full')
+    LOCALMAPS[0] = os.path.join(job['xmldir'], 'localmaps')
     soft, hard = resource.getrlimit(resource.RLIMIT_AS)
     if hard == resource.RLIM_INFINITY or hard > MEM_LIMIT:
         resource.setrlimit(resource.RLIMIT_AS, (MEM_LIMIT, hard))
